@@ -8,14 +8,26 @@ export GOFLAGS=-mod=mod GOPROXY=off GOSUMDB=off GOTOOLCHAIN=local
 ORIG="$(pwd)"
 cd "$VERIF/harness" || exit 2
 mkdir -p "$VERIF/.build"
-if ! go build -o "$VERIF/.build/vsup" ./cmd/vsup 2> "$VERIF/.build/vsup.log"; then
-  echo "cannot build the supervisor:"; cat "$VERIF/.build/vsup.log"; exit 2
+# leftovers of invocations that were killed (scratch names end in the pid of their owner)
+for d in "$VERIF"/.build/*.[0-9]* "$VERIF"/.work/*.[0-9]*; do
+  [ -e "$d" ] || continue
+  pid="${d##*.}"
+  case "$pid" in *[!0-9]*) continue ;; esac
+  kill -0 "$pid" 2>/dev/null || rm -rf "$d"
+done
+# the supervisor binary is private to this invocation (a concurrent check must not rebuild it while it runs)
+VSUP="$VERIF/.build/vsup.$$"
+trap 'rm -f "$VSUP" "$VSUP.log"' EXIT
+if ! go build -o "$VSUP" ./cmd/vsup 2> "$VSUP.log"; then
+  echo "cannot build the supervisor:"; cat "$VSUP.log"; exit 2
 fi
 if [ "${1:-}" = "replay" ]; then
   RP="$2"
   case "$RP" in /*) ;; *) RP="$ORIG/$RP" ;; esac
-  exec "$VERIF/.build/vsup" -verif "$VERIF" -replay "$RP"
+  "$VSUP" -verif "$VERIF" -replay "$RP"
+  exit $?
 fi
 ID="${1:?property id}"
 TIER="${2:-${VERIF_TIER:-quick}}"
-exec "$VERIF/.build/vsup" -verif "$VERIF" -prop "$ID" -tier "$TIER" -seed "${VERIF_SEED:-1}"
+"$VSUP" -verif "$VERIF" -prop "$ID" -tier "$TIER" -seed "${VERIF_SEED:-1}"
+exit $?
